@@ -155,6 +155,58 @@ CLAIMS = {
         "handler boundary for the executor's index); go/ssa.",
         "DESIGN.md 5 (C13)",
     ),
+    "C15": (
+        "who-may-write and same-path pairing rules for the name index (second sentence of the property only)",
+        "Decides for every naming API and registration program: a route name is set only in constructors (indexed by appendRoute on "
+        "every path with a non-empty name, before any return) or together with namedRoutes[sameName] = sameRoute; the index is written "
+        "nowhere else, never deleted from; GetRoute is a plain lookup and BuildURL resolves through it. The BuildURL -> Match round "
+        "trip (first sentence) quantifies over run-time string values through net/url and is NOT decided by this family.",
+        "Trusted: Go map assignment semantics; go/ssa.",
+        "DESIGN.md 5 (C15) and 8",
+    ),
+    "C16": (
+        "table extraction by constant-folding partial evaluation of the registration callback, compared with the table in Resource's own doc comment; path rules for only/uses/reject",
+        "Decides for all controllers: the (methods, path, name) triple the code can register for each of the seven action names equals "
+        "the documented REST table row by row; an action is registered at most once and only when the controller implements it with the "
+        "handler signature; Uses()[name] goes to the route of the same name; non-pointer/non-struct controllers panic first; everything "
+        "goes through Group; the static /res/create outranks /res/{id} (C01-TIERS). It does not decide reflection on exotic method sets.",
+        "Trusted: reflect.Kind constants; the doc comment is the repository's statement of the table; go/ssa.",
+        "DESIGN.md 5 (C16)",
+    ),
+    "C17": (
+        "backward provenance (taint) from every file-system sink with a positive fixture, registration-time construction of the file server, pattern-level extension filter",
+        "Decides that in rux's own code no request-derived text reaches a file-system sink except through net/http's file server: "
+        "roots/files are registration-time values, the per-request closures only call ServeHTTP of the captured handler, the extension "
+        "filter is part of the route regex. Confinement inside http.FileServer/http.Dir/ServeFile itself is trusted, not decided.",
+        "Trusted: net/http path cleaning and '..' rejection; the positive fixture proves the rule can fire; go/ssa.",
+        "DESIGN.md 5 (C17)",
+    ),
+    "C18": (
+        "decision-table extraction over all CFG paths of binding.Auto, validate-on-every-success-path rule over all binders, error-discipline and obligation rules for pkg/binding",
+        "Decides for all methods and Content-Type strings (the code touches them only through the extracted comparisons) that Auto's "
+        "decision table is the documented one, in order; that every binder returns a non-nil error or Validate(dest); that no error is "
+        "dropped and nothing in pkg/binding panics outside Must*. The encode->bind round trip is a codec property and NOT decided.",
+        "Trusted: formam / encoding/json / encoding/xml / gookit/validate return errors rather than panic; go/ssa.",
+        "DESIGN.md 5 (C18)",
+    ),
+    "C19": (
+        "status-argument dominance over body writes (fixpoint over helper wrappers), content-type constant table, who-may-set Content-Type, switch-arm exhaustiveness, error discipline",
+        "Decides for all statuses and values: every helper records its own status argument before any body byte, uses its documented "
+        "content-type constant, the renderers set Content-Type only when absent and before writing, every Accept arm naming a supported "
+        "type produces a response and the first supported type wins, render errors are never dropped. That bodies decode back to the "
+        "value is a codec property and NOT decided.",
+        "Trusted: goutil httpctype constants; go/ssa and go/ast.",
+        "DESIGN.md 5 (C19)",
+    ),
+    "C20": (
+        "truth-table enumeration of CFG paths over four boolean atoms (16 valuations), guard/whitelist path rules for the method override, adapter argument provenance",
+        "Decides the 'if and only if' of the Basic-auth gate for every header/account value at once (the code touches them only through "
+        "the four atoms), the POST-only / {PUT,PATCH,DELETE}-only / recorded-original / delegate-once shape of the override handler, and "
+        "that the http.Handler adapters pass c.Resp and c.Req. It does not decide Request.BasicAuth parsing nor the n-ary wrapper order "
+        "of WrapHTTPHandlers (index arithmetic over a run-time length).",
+        "Trusted: net/http BasicAuth; C05 for 'nothing downstream runs'; go/ssa.",
+        "DESIGN.md 5 (C20)",
+    ),
 }
 
 NOT_APPLICABLE = {}
